@@ -28,7 +28,7 @@ def enc(o):
     if o is Ellipsis:
         return {"$el": 1}
     if isinstance(o, np.ndarray):
-        return {"$nd": enc(o.tolist()), "$dt": o.dtype.name, "$sh": list(o.shape)}
+        return {"$nd": enc(o.tolist()), "$dt": o.dtype.name if o.dtype.isnative else o.dtype.str, "$sh": list(o.shape)}
     if isinstance(o, np.dtype):
         return {"$dtype": o.name}
     if isinstance(o, type) and issubclass(o, np.generic):
